@@ -732,6 +732,10 @@ func (m *Machine) expr(e Expr) (Value, signal) {
 				parts[i] = Display(a)
 			}
 			m.out.WriteString(strings.Join(parts, " "))
+			if m.out.Len() > 4<<20 {
+				// output bomb (a list doubled inside a loop and printed each time): not a useful case
+				panic(discard{})
+			}
 			if e.Name == "println" {
 				m.out.WriteString("\n")
 			}
@@ -1059,7 +1063,7 @@ func (m *Machine) mcall(e MCall) (Value, signal) {
 		case "len":
 			return int64(len(r.E)), signal{}
 		case "push":
-			if len(r.E) > 100000 {
+			if len(r.E) > 5000 {
 				panic(discard{})
 			}
 			r.E = append(r.E, args[0])
